@@ -1,6 +1,7 @@
 package main
 
 import (
+	"os"
 	"fmt"
 	"go/constant"
 	"go/token"
@@ -543,8 +544,58 @@ func checkMatchBoundaries(c *Ctx, rule string, resolver *ssa.Function) {
 						}
 					}
 				}
-				okB := len(bcalls) > 0
 				bTrue, _, _ := GuardEdges(fn, bcalls, BoolTrue)
+				// the boundary written out: rest == "" (exact match) or rest[0] == '/' (rest[len(rest)-1] == '.')
+				isBoundaryCmp := func(v ssa.Value) bool {
+					bo, ok := v.(*ssa.BinOp)
+					if !ok || bo.Op != token.EQL || rest == nil {
+						return false
+					}
+					if bo.X == rest {
+						if cs, ok := constString(bo.Y); ok && cs == "" {
+							return true
+						}
+					}
+					var base, index ssa.Value
+					switch ix := bo.X.(type) {
+					case *ssa.Lookup:
+						base, index = ix.X, ix.Index
+					case *ssa.Index:
+						base, index = ix.X, ix.Index
+					}
+					if base == rest && base != nil {
+						if n, ok := intConst(bo.Y); ok && n == int64(bchar[0]) {
+							if !isSuffix && isIntConst(index, 0) {
+								return true
+							}
+							if isSuffix {
+								return true
+							}
+						}
+					}
+					return false
+				}
+				nCmp := 0
+				for _, b := range fn.Blocks {
+					for _, ins := range b.Instrs {
+						if v, ok := ins.(ssa.Value); ok && isBoundaryCmp(v) {
+							bvals[v] = true
+							nCmp++
+						}
+					}
+					for i := range b.Succs {
+						if a, ok := edgeAtom(Edge{b, i}); ok && a.Op == token.EQL {
+							probe := &ssa.BinOp{Op: token.EQL, X: a.X, Y: a.Y}
+							if isBoundaryCmp(probe) {
+								bTrue = append(bTrue, Edge{b, i})
+							}
+						}
+					}
+				}
+				okB := len(bcalls) > 0 || nCmp > 0
+				if os.Getenv("HK_DEBUG") != "" {
+					fmt.Println("DEBUG cut", FuncName(fn), "rest", rest != nil, "bcalls", len(bcalls), "nCmp", nCmp, "bTrue", len(bTrue))
+				}
 				matched, _, _ := GuardEdges(fn, []ssa.CallInstruction{call}, BoolTrue)
 				for _, r := range returnsOf(fn) {
 					if len(r.Results) == 0 {
@@ -566,11 +617,24 @@ func checkMatchBoundaries(c *Ctx, rule string, resolver *ssa.Function) {
 						at := ssa.Instruction(r)
 						if via != nil {
 							at = via[ai].Instrs[len(via[ai].Instrs)-1]
+							// the alternative arrives over a boundary-test edge itself
+							overBoundary := false
+							for _, be := range bTrue {
+								if be.From == via[ai] && be.To() == r.Results[0].(*ssa.Phi).Block() {
+									overBoundary = true
+								}
+							}
+							if overBoundary {
+								continue
+							}
 						}
 						// a possibly-true verdict: only acceptable when not reachable from the partial match's ok edge
 						// without the boundary test's true edge
 						if len(matched) > 0 {
-							if okn, _ := p.NoPathFrom(matched, at, bTrue); !okn {
+							if okn, w := p.NoPathFrom(matched, at, bTrue); !okn {
+								if os.Getenv("HK_DEBUG") != "" {
+									fmt.Println("DEBUG cut alt", alt.String(), p.InstrPos(at), w)
+								}
 								okB = false
 							}
 						}
